@@ -87,6 +87,11 @@ pub struct ExPlan {
     pub epipe_at: Option<u32>,
     /// Paced mode: segment boundaries (byte offsets into the terminal stream).
     pub paced_cuts: Vec<u32>,
+    /// Paced mode: segment k reaches the client this many virtual milliseconds after the client
+    /// ran out of data (the last entry repeats; empty = at once). The sequences have no timer of
+    /// their own, so a stall of the terminal must change nothing.
+    #[serde(default)]
+    pub paced_gaps_ms: Vec<u32>,
     /// Label of the injected fault (for signatures / evidence).
     pub fault: String,
 }
@@ -104,6 +109,7 @@ impl ExPlan {
             cut: None,
             epipe_at: None,
             paced_cuts: vec![],
+            paced_gaps_ms: vec![],
             fault: String::new(),
         }
     }
@@ -133,6 +139,7 @@ pub struct ScriptTerm {
     cut: Option<(u32, CloseKind)>,
     epipe_at: Option<u32>,
     paced: Vec<Vec<u8>>,
+    paced_gaps_ms: Vec<u32>,
     paced_next: usize,
     got_cmd: bool,
     next_piece: usize,
@@ -176,6 +183,7 @@ impl ScriptTerm {
             cut: plan.cut,
             epipe_at: plan.epipe_at,
             paced,
+            paced_gaps_ms: plan.paced_gaps_ms.clone(),
             paced_next: 0,
             got_cmd: false,
             next_piece: 0,
@@ -188,6 +196,10 @@ impl ScriptTerm {
     }
 
     fn emit(&mut self, io: &mut TermIo<'_>, bytes: &[u8]) {
+        self.emit_after(io, 0, bytes)
+    }
+
+    fn emit_after(&mut self, io: &mut TermIo<'_>, gap_ms: u64, bytes: &[u8]) {
         if io.is_closed() {
             return;
         }
@@ -196,16 +208,23 @@ impl ScriptTerm {
                 let at = at as u64;
                 let room = at.saturating_sub(self.released) as usize;
                 let n = room.min(bytes.len());
-                io.release(&bytes[..n]);
+                io.release_after(gap_ms, &bytes[..n]);
                 self.released += n as u64;
                 if self.released >= at {
                     io.close(kind);
                 }
             }
             None => {
-                io.release(bytes);
+                io.release_after(gap_ms, bytes);
                 self.released += bytes.len() as u64;
             }
+        }
+    }
+
+    fn paced_gap(&self, k: usize) -> u64 {
+        match self.paced_gaps_ms.get(k).or(self.paced_gaps_ms.last()) {
+            Some(g) => *g as u64,
+            None => 0,
         }
     }
 
@@ -300,12 +319,17 @@ impl Terminal for ScriptTerm {
         if self.mode != Mode::Paced || !self.got_cmd {
             return false;
         }
+        if io.has_delayed() {
+            // a segment is on its way: virtual time has to pass first
+            return false;
+        }
         if let Some(p) = self.paced.get(self.paced_next).cloned() {
+            let gap = self.paced_gap(self.paced_next);
             self.paced_next += 1;
             let before = io.released_total();
             let was_closed = io.is_closed();
-            self.emit(io, &p);
-            return io.released_total() != before || (io.is_closed() && !was_closed);
+            self.emit_after(io, gap, &p);
+            return io.released_total() != before || (io.is_closed() && !was_closed) || io.has_delayed();
         }
         false
     }
